@@ -7,7 +7,7 @@ import json, os, shutil, subprocess, sys, time
 
 sid, pdir, props = sys.argv[1:4]
 pdir = os.path.abspath(pdir)
-wt = "/tmp/mut"
+wt = os.environ.get("SEED_WT", "/tmp/mut")
 head = subprocess.run(["git", "-C", "/repo", "rev-parse", os.environ.get("SEED_BASE", "HEAD")], capture_output=True, text=True).stdout.strip()
 if not os.path.isdir(wt):
     subprocess.run(["git", "-C", "/repo", "worktree", "add", "-q", "--detach", wt, head], check=True)
